@@ -291,9 +291,15 @@ RESTART:
 		value = value.Elem()
 		goto RESTART
 	case reflect.Struct:
-		value = value.FieldByName(fields[lef])
-		if !value.IsValid() {
+		field, found := value.Type().FieldByName(fields[lef])
+		if !found {
 			left.errorf("identifier %q is not available in the current scope", fields[lef])
+		}
+		var err error
+		// (reflect.Value.FieldByName panics when the field is promoted through a nil embedded pointer)
+		value, err = fieldByIndex(value, field.Index)
+		if err != nil {
+			left.errorf("%v", err)
 		}
 		if !value.CanSet() {
 			left.errorf("field %q can't be assigned to (the struct is not addressable or the field is unexported)", fields[lef])
